@@ -154,6 +154,8 @@ def valid_set(name, m, tier, nseeds=None, check_positions=None, kw=None, cap=Non
             from . import synth
             for u in synth.length_variants(name, m, sv, limit=12):
                 nodes.setdefault(u, 0)
+            for u in synth.literal_variants(name, m, sv, limit=12):
+                nodes.setdefault(u, 0)
         except Exception:
             pass
     stats = {'seeds': len(nodes), 'edges': 0, 'tried': 0}
